@@ -107,3 +107,23 @@ pub open spec fn moov_at(d: Seq<u8>, q: int, size: u64, b: MoovBox) -> bool {
     &&& rel_some(b.meta, child_at_m(d, q, size, BoxType::MetaBox))
     &&& rel_udta(d, b.udta, child_at_m(d, q, size, BoxType::UdtaBox))
 }
+
+// ---- top level of the file: boxes follow each other from the start position; a box of size 0 ("to the end of the file") ends the scan
+pub open spec fn top_last_of(d: Seq<u8>, p: int, end: int, ty: BoxType, acc: Option<int>) -> Option<int>
+    decreases (if p < end { end - p } else { 0 })
+{
+    if p >= end || child_size(d, p) == 0 || child_next(d, p) <= p { acc }
+    else if child_name(d, p) == ty { top_last_of(d, child_next(d, p), end, ty, Some(p)) }
+    else { top_last_of(d, child_next(d, p), end, ty, acc) }
+}
+pub open spec fn rel_moov(d: Seq<u8>, x: Option<MoovBox>, g: Option<int>) -> bool {
+    (x is Some <==> g is Some) && (x matches Some(b) ==> moov_at(d, child_q(d, g->Some_0), child_size(d, g->Some_0), b))
+}
+pub open spec fn rel_ftyp(d: Seq<u8>, x: Option<FtypBox>, g: Option<int>) -> bool {
+    (x is Some <==> g is Some) && (x matches Some(b) ==> ftyp_at(d, child_q(d, g->Some_0) - 8, child_size(d, g->Some_0) as int, b))
+}
+/// what an opened reader holds: the movie box and the file-type box are the decodings of the last such boxes of the file
+pub open spec fn file_parsed<R>(d: Seq<u8>, start: int, size: u64, m: Mp4Reader<R>) -> bool {
+    &&& rel_moov(d, Some(m.moov), top_last_of(d, start, size as int, BoxType::MoovBox, None))
+    &&& rel_ftyp(d, Some(m.ftyp), top_last_of(d, start, size as int, BoxType::FtypBox, None))
+}
